@@ -246,6 +246,7 @@ func c20StartDaemon() (*c20Daemon, error) {
 	os.Chdir(cwd)
 	d.canary = filepath.Join(d.dir, "canary")
 	tm.Tree{tm.D("dir", 0o755, tm.Past), tm.File("dir/secret", []byte("canary secret"), 0o600, tm.Past), tm.File("top", []byte("canary top"), 0o644, tm.Past)}.Materialise(d.canary)
+	os.WriteFile(filepath.Join(d.canary, "evil.toml"), []byte("[[module]]\nname = \"leak\"\npath = \""+d.canary+"\"\n"), 0o644)
 	d.marker = filepath.Join(d.dir, "MARKER-EXECUTED")
 	d.script = filepath.Join(d.dir, "marker.sh")
 	os.WriteFile(d.script, []byte("#!/bin/sh\necho executed \"$@\" >> "+d.marker+"\nexit 1\n"), 0o755)
@@ -295,7 +296,10 @@ type c20Outcome struct {
 }
 
 // exec runs one command line in a fresh session: sends a protocol version word and a little more, closes stdin.
-func (d *c20Daemon) exec(cmdline string) c20Outcome {
+func (d *c20Daemon) exec(cmdline string) c20Outcome { return d.execStdin(cmdline, nil) }
+
+// execStdin runs one exec request; input nil: what a command-mode client would send first.
+func (d *c20Daemon) execStdin(cmdline string, input []byte) c20Outcome {
 	o := c20Outcome{status: -1}
 	sess, err := d.client.NewSession()
 	if err != nil {
@@ -323,8 +327,12 @@ func (d *c20Daemon) exec(cmdline string) c20Outcome {
 		return o
 	}
 	// what a command-mode client would send first: its protocol version, then an empty filter list and end markers
-	stdin.Write([]byte{27, 0, 0, 0, 0, 0, 0, 0, 255, 255, 255, 255, 255, 255, 255, 255, 255, 255, 255, 255})
-	stdin.Write([]byte("@RSYNCD: 27\n#list\n"))
+	if input == nil {
+		stdin.Write([]byte{27, 0, 0, 0, 0, 0, 0, 0, 255, 255, 255, 255, 255, 255, 255, 255, 255, 255, 255, 255})
+		stdin.Write([]byte("@RSYNCD: 27\n#list\n"))
+	} else {
+		stdin.Write(input)
+	}
 	stdin.Close()
 	done := make(chan error, 1)
 	go func() { done <- sess.Wait() }()
@@ -372,7 +380,9 @@ func c20BuildExec(tier string) core.Source {
 		maxLen = 6
 	}
 	// "-e" and "--exclude" take the NEXT word as their value, so that e.g. "--daemon" can appear as a value rather than as an option
-	alphabet := []string{"--server", "--daemon", "--sender", "-eMARKER", "--rsh=MARKER", "-e", "--exclude", "-vlogDtpr", ".", "CANARY/dir", "CANARY/newdir", "host:path", "rsync://127.0.0.1:1/m"}
+	alphabet := []string{"--server", "--daemon", "--sender", "-eMARKER", "--rsh=MARKER", "-e", "--exclude", "-vlogDtpr", ".", "CANARY/dir", "CANARY/newdir", "host:path", "rsync://127.0.0.1:1/m",
+		// daemon-side options a client must not be able to set for its session
+		"--gokr.modulemap=leak=CANARY", "--gokr.config=CANARY/evil.toml"}
 	var lines [][]string
 	var gen func(p []string)
 	gen = func(p []string) {
@@ -438,6 +448,26 @@ func c20BuildExec(tier string) core.Source {
 				greeted := bytes.HasPrefix(o.stdout, []byte("@RSYNCD: 27\n"))
 				if greeted {
 					daemonSessions++
+					// the session must expose exactly the configured modules: ask it for its module list
+					// and try to fetch from a module name the command line may have tried to add
+					l := d.execStdin(cmd, []byte("@RSYNCD: 27\n#list\n"))
+					var mods []string
+					for _, line := range strings.Split(string(l.stdout), "\n") {
+						if line == "" || strings.HasPrefix(line, "@RSYNCD:") {
+							continue
+						}
+						mods = append(mods, strings.TrimSpace(strings.SplitN(line, "\t", 2)[0]))
+					}
+					if len(mods) != 1 || mods[0] != "mod" {
+						res.Fail = core.Fail("session_exposes_other_modules", fmt.Sprintf("%q: module listing of the session is %q, configured: [mod]", cmd, mods), ff...)
+						return res
+					}
+					k := d.execStdin(cmd, []byte("@RSYNCD: 27\nleak\n--server\n--sender\n-r\n.\nleak/\n\n\x00\x00\x00\x00"))
+					if bytes.Contains(k.stdout, []byte("@RSYNCD: OK")) || bytes.Contains(k.stdout, []byte("secret")) {
+						res.Fail = core.Fail("session_exposes_other_modules", fmt.Sprintf("%q: a module named leak is served: %q", cmd, trunc(string(k.stdout), 80)), ff...)
+						return res
+					}
+					cnt(&res, "transitions", 2)
 					continue
 				}
 				if canonical || len(o.stdout) > 0 || o.status == 0 {
@@ -553,8 +583,8 @@ func init() {
 	core.Register(&core.Prop{
 		ID:    "C20",
 		Level: "model_checking",
-		Rule: "auth: every subset of 4 listable keys (ed25519 x2, ecdsa-p256, rsa-2048) x authorized_keys layouts {plain, comments/blank lines/options prefix, CRLF} (incl. the empty file) x every client key (the 4, an unlisted one, none), plus the anonymous listener, each a real SSH handshake against anonssh.Serve; exec: the real daemon entry point (maincmd.Main --daemon with an authorized-SSH listener, i.e. the real session dispatch) receives every exec command line 'rsync w1..wk', k<=5 (thorough k<=6), over {--server,--daemon,--sender,-e<marker>,--rsh=<marker>,-e <next word>,--exclude <next word>,-vlogDtpr,.,<canary>/dir,<canary>/newdir,host:path,rsync://…}; requests: shell, subsystem, pty-req, env, foreign channel types. " +
-			"oracle: handshake succeeds iff the key is listed (always on the anonymous listener); a session produces the daemon greeting iff the command line selects --server --daemon; every other command line yields no stdout bytes, a non-zero exit status, an untouched canary directory and no execution of the marker script. states/transitions = handshakes / sessions",
+		Rule: "auth: every subset of 4 listable keys (ed25519 x2, ecdsa-p256, rsa-2048) x authorized_keys layouts {plain, comments/blank lines/options prefix, CRLF} (incl. the empty file) x every client key (the 4, an unlisted one, none), plus the anonymous listener, each a real SSH handshake against anonssh.Serve; exec: the real daemon entry point (maincmd.Main --daemon with an authorized-SSH listener, i.e. the real session dispatch) receives every exec command line 'rsync w1..wk', k<=5 (thorough k<=6), over {--server,--daemon,--sender,-e<marker>,--rsh=<marker>,-e <next word>,--exclude <next word>,-vlogDtpr,.,<canary>/dir,<canary>/newdir,host:path,rsync://…,--gokr.modulemap=leak=<canary>,--gokr.config=<canary>/evil.toml}; requests: shell, subsystem, pty-req, env, foreign channel types. " +
+			"oracle: handshake succeeds iff the key is listed (always on the anonymous listener); a session produces the daemon greeting iff the command line selects --server --daemon, and such a session lists exactly the configured module and serves no other module name; every other command line yields no stdout bytes, a non-zero exit status, an untouched canary directory and no execution of the marker script. states/transitions = handshakes / sessions",
 		Assum: []string{"key material is generated per worker and is not an explored dimension", "landlock is neutralised in the worker (it would narrow what a session can reach; the property is about the listener's dispatch)", "the anonymous listener's dispatch closure is textually the same as the authorised one and needs Linux namespaces to start, so the authorised one is driven"},
 		Parts: func(tier string) []core.Part {
 			return []core.Part{{Name: "auth", Build: c20BuildAuth}, {Name: "exec", Build: c20BuildExec, Par: 8}, {Name: "requests", Build: c20BuildRequests, Par: 1}}
